@@ -11,6 +11,7 @@ import ArrModel.IndexExt
 import ArrModel.C10
 import ArrModel.C19
 import ArrModel.C01Diff
+import ArrProofs.Lemmas.C09Insert
 /-!
 # C09 — failures are error values and flow unchanged through chained calls
 
@@ -746,8 +747,8 @@ theorem gen_shape_validators_total {α β : Type} (s t : List Nat) (e : List β)
 example : ArrModel.Gen.Core.Array_axis_in_bounds sample 3 = .err .AxisOutOfBounds ∧ ArrModel.Gen.Core.Array_axis_in_bounds sample 2 = .ok () := by decide
 
 /-! ## (g) `insert(indices, values, Some(axis))` — the model `Arr.insertAxis` of `ArrModel/C01Diff.lean`, run by the C09 driver since round 5
-(class `m` / `x` lines).  Refusals of the argument kinds the statement names, the vector arm, partial totality.  The three-argument
-relation "number of indices against the rows of the values" (the `split` refusal deep inside the N-D arm) is tied by execution only. -/
+(class `m` / `x` lines).  Refusals of the argument kinds the statement names, the vector arm, totality (`Lemmas/C09Insert.lean`), and the three-argument
+relation "number of insertion points against the rows of the values" for values whose other axes match (stretched values: tied by execution). -/
 
 section insertAxis
 variable {α : Type}
@@ -786,23 +787,30 @@ theorem insertAxis_vector (a : Arr α) (zero : α) (indices : List Nat) (v : Arr
   rw [if_neg (by omega), hany]
   simp [h1, hv]
 
-/-- PARTIAL totality: on receivers of rank 0 and 1 `insert` with an axis never panics, for every argument value (since the
-`fix:` commit 06ac896; before it a vector panicked for every index >= 2).  NOT proved: rank >= 2 — the model has two panic arms
-there (`Vec::insert` above the length of the piece list, the division by the slice length) which are unreachable because
-`split_axis` hands out `shape[axis]` pieces (one for an empty receiver, whose only admissible index is then 0 unless another
-refusal comes first) and a zero-length off-axis is refused by the fit loop; that argument needs piece-count lemmas for `arraySplit`
-that do not exist yet.  Full statement: `∀ a v, a.WF → v.WF → a.insertAxis zero indices v axis ≠ .panic`; tied by execution only
-(class `x` / `m` / `t` lines of the harness: 41 000 calls of ranks 1-4, no panic). -/
-theorem insertAxis_total_partial (a : Arr α) (zero : α) (indices : List Nat) (v : Arr α) (axis : Nat) (h : a.ndim ≤ 1) :
-    a.insertAxis zero indices v axis ≠ .panic := by
-  unfold Arr.insertAxis
-  split
-  · exact fun h => nomatch h
-  · split
-    · exact fun h => nomatch h
-    · split
-      · exact fun h => nomatch h
-      · rw [if_pos (by omega)]; exact insertFlat_total a indices v
+/-- **totality**: `insert` with an axis never panics on a well-formed receiver - for every index list, every values array (well-formed
+or not) and every axis value.  The model has two panic arms on rank >= 2 (`Vec::insert` above the length of the piece list, the
+division by the slice length); neither is reachable: a zero-length off-axis is refused by the fit loop, `split_axis` hands out
+`shape[axis]` pieces (one piece for an empty receiver, whose only admissible index is then 0), and every step in between is total
+(`Lemmas/C09Insert.lean`).  Before the `fix:` commits 06ac896 / 5478fd7 the code did panic (vector receiver with an index >= 2; a
+zero-length values axis). -/
+theorem insertAxis_total (a : Arr α) (zero : α) (indices : List Nat) (v : Arr α) (axis : Nat) (ha : a.WF) :
+    a.insertAxis zero indices v axis ≠ .panic := insertAxis_ne_panic a zero indices v axis ha
+
+/-- **rows against insertion points** (round 5, the three-argument relation; code as of /repo 34ccd75): on a receiver of rank >= 2, with
+two or more insertion points, a values array of the receiver's rank whose other axes match the receiver exactly, which is not the
+single slice and whose element count is not a multiple of (slice length x number of insertion points) - the whole slices of the
+values cannot be distributed equally over the insertion points, whether or not the slice length shares a factor with their number -
+is refused with an error value.  (Stated for matching axes; for values that are stretched first the same refusal sits behind the
+fit loop and is tied by execution - class `x` lines.) -/
+theorem insertAxis_rows_reject (a v : Arr α) (zero : α) (indices : List Nat) (axis : Nat) (ha : a.WF) (hv : v.WF)
+    (hn1 : a.ndim ≠ 1) (hk : 1 < indices.length) (hvr : v.ndim = a.ndim)
+    (hfit : ∀ i, i < a.ndim → i ≠ axis → (swapExt v.shape 0 axis).getD i 0 = a.shape.getD i 0 ∧ a.shape.getD i 0 ≠ 0)
+    (hone : v.len ≠ (a.shape.eraseIdx axis).prod) (hrows : v.len % ((a.shape.eraseIdx axis).prod * indices.length) ≠ 0) :
+    ∃ e, a.insertAxis zero indices v axis = .err e := by
+  cases h : a.insertAxis zero indices v axis with
+  | ok r => exact absurd h (insertAxis_uneven_not_ok a v zero indices axis hv hn1 hk hvr hfit hone hrows r)
+  | err e => exact ⟨e, rfl⟩
+  | panic => exact absurd h (insertAxis_ne_panic a zero indices v axis ha)
 
 end insertAxis
 
@@ -811,9 +819,16 @@ example : (⟨[1, 2, 3, 4, 5, 6], [2, 3]⟩ : Arr Nat).insertAxis 0 [0] ⟨[7, 8
     (⟨[1, 2, 3, 4, 5, 6], [2, 3]⟩ : Arr Nat).insertAxis 0 [0, 3] ⟨[7, 8, 9], [3]⟩ 0 = .err .OutOfBounds ∧
     (⟨[1, 2, 3, 4, 5, 6], [2, 3]⟩ : Arr Nat).insertAxis 0 [0] ⟨[7], []⟩ 0 = .err .UnsupportedDimension ∧
     (⟨[1, 2, 3, 4, 5, 6], [2, 3]⟩ : Arr Nat).insertAxis 0 [0, 1, 2] ⟨[7, 8, 9], [3]⟩ 0 = .err .BroadcastShapeMismatch ∧
-    (⟨[1, 2, 3, 4, 5, 6], [2, 3]⟩ : Arr Nat).insertAxis 0 [0, 1] ⟨[7, 8, 9, 10, 11, 12, 13, 14, 15], [3, 3]⟩ 0 = .err .ParameterError ∧
+    (⟨[1, 2, 3, 4, 5, 6], [2, 3]⟩ : Arr Nat).insertAxis 0 [0, 1] ⟨[7, 8, 9, 10, 11, 12, 13, 14, 15], [3, 3]⟩ 0 = .err .BroadcastShapeMismatch ∧
     (⟨[1, 2, 3, 4, 5, 6], [2, 3]⟩ : Arr Nat).insertAxis 0 [0, 1] ⟨[7, 8, 9, 10, 11, 12], [2, 3]⟩ 0 =
       .ok ⟨[7, 8, 9, 1, 2, 3, 10, 11, 12, 4, 5, 6], [4, 3]⟩ ∧
     (⟨[1, 2, 3], [3]⟩ : Arr Nat).insertAxis 0 [2] ⟨[9], [1]⟩ 0 = .ok ⟨[1, 2, 9, 3], [4]⟩ := by decide +kernel
+-- the hypotheses of `insertAxis_rows_reject` are satisfiable: three rows for two insertion points on a 2x2 receiver (6 elements: a
+-- multiple of 2 but not of 2 x 2 - the input the code accepted before /repo 34ccd75), and the model refuses it
+example : let a : Arr Nat := ⟨[1, 2, 3, 4], [2, 2]⟩; let v : Arr Nat := ⟨[10, 11, 12, 13, 14, 15], [3, 2]⟩
+    a.WF ∧ v.WF ∧ a.ndim ≠ 1 ∧ 1 < [0, 1].length ∧ v.ndim = a.ndim ∧
+    (∀ i, i < a.ndim → i ≠ 0 → (swapExt v.shape 0 0).getD i 0 = a.shape.getD i 0 ∧ a.shape.getD i 0 ≠ 0) ∧
+    v.len ≠ (a.shape.eraseIdx 0).prod ∧ v.len % ((a.shape.eraseIdx 0).prod * [0, 1].length) ≠ 0 ∧
+    a.insertAxis 0 [0, 1] v 0 = .err .BroadcastShapeMismatch := by decide +kernel
 
 end ArrModel.C09
